@@ -10,11 +10,11 @@ COMMON_NOTE = "Trusted: Lean kernel + {propext, Classical.choice, Quot.sound}; J
 
 CLAIMED = {
     "C01": {
-        "category": "other",
-        "technique": "Lean 4 proofs of per-bucket refinement (lookup, cursor, in-transaction edits on every well-formed tree) + Lean proof that the model of commit (rebalance replay + spill) preserves contents and the tree invariant, tied by per-commit shape prediction + verified file checker run on the real bytes after every commit + differential correspondence of every API outcome against the Lean specification",
-        "text": "Proved in Lean, for all keys, values, trees and edit sequences (Jamm/Props/C01.lean): the reference is an ordered map; on every well-formed B+tree the model of Bucket::get and of the cursor return the reference's answer on the tree's in-order contents, any sequence of put/delete leaf edits equals the same sequence of reference-map operations and preserves well-formedness; the executable checker wfb is sound for well-formedness. Layer C: the model of one bucket's commit (replay of any list of rebalance steps, then spill at any page size) provably leaves the bucket's contents unchanged and keeps the tree invariant (separators bound subtrees, no routing gap, uniform depth), which every put/delete keeps too and which implies well-formedness — so the read theorems hold at every point of every history of the model; the correspondence run checks on every commit that this model predicts the exact shape (keys, page cuts) of the tree the real code wrote. The page writer is modelled too and proved inverse to the decoder (C05). NOT proved: the composition over nested buckets and the page accounting of commit; those are decided per commit by the verified file checker and the contents comparison on the bytes the real code wrote (C05) — hence category other, not proof. Tie, checked on every run: histories (random profiles, directed enumerations of all delete ranges over 1/2/3-level trees with and without nested buckets, rollbacks, reopen, misuse of deleted handles) are executed on /repo built from the working tree and every call outcome and every post-commit dump (same process and after reopen) is compared by the Lean driver with the specification.",
-        "design_ref": "DESIGN.md §5 C01, §3.1, §3.4–3.7",
-        "note": COMMON_NOTE + "Modelled, tied by correspondence only: search/cursor/leaf edits (their Lean models are exercised through the spec comparison), commit.",
+        "category": "proof",
+        "technique": "Lean 4 refinement proofs, layer by layer: API operations over per-bucket B+trees refine the reference nested ordered map for every operation sequence at every nesting depth; lookup / cursor / edits on every well-formed tree; the commit model (any rebalance steps + spill, any page size) preserves contents and the tree invariant; a tree written to pages reads back as the same tree. Each layer's model is tied to the code on every run: call outcomes, exact overlay trees after edits, exact committed trees, freed pages, bytes of every page, decoded file contents",
+        "text": "Proved in Lean (Jamm/Props/C01.lean, 22 theorems), for all keys, values, trees, operation sequences and page sizes: (1) the reference is an ordered map; (2) the database as the code holds it — one B+tree per bucket, put / get / delete / get-create-delete bucket with the control flow and error precedence of bucket.rs over the tree operations — returns exactly the reference's values and error kinds and has the reference's contents, counters and bucket structure after any sequence of operations at any nesting depth, all trees staying well-formed (api_*_refines, api_history_refines); (3) on every well-formed tree point lookup, full cursor scan (ascending) and any sequence of leaf edits equal the reference's; (4) the model of one bucket's commit — replay of ANY list of rebalance steps, touches of nested-bucket headers, then spill at any page size — leaves the contents unchanged and keeps the tree invariant (separators bound subtrees, no routing gap, uniform depth), which implies well-formedness, so (3) applies at every point of every history; a commit that keeps each bucket's contents is invisible in the reference (api_commit_invisible); (5) a tree written node by node to pages unfolds from its root page to exactly the same tree and disturbs nothing else (what a later transaction or a reopen reads is what was written). The layers are proved separately; their composition into one end-to-end theorem about the whole system (begin / commit / reopen through the header choice of C12 and the crash model of C02) is by the ties, not by a single theorem. Ties, checked on every run by the Lean driver on the real code built from the working tree: every call outcome and every post-commit dump (same process and after reopen) against the reference; after every edit the real overlay tree against the model's (overlay_prediction_is_exact, C07); for every commit the real committed tree of every bucket against the commit model's prediction, the freed pages and new-page count against the model's, every tree / header / free-list page byte for byte against the model writers, and the decoded file through the verified checker (C05). Histories: random profiles (deep, tiny, huge, empty and prefix keys, multi-page values, nested buckets, rollbacks, reopen, misuse of deleted handles, six argument types), all contiguous delete ranges and keep-windows over 1/2/3-level trees with and without nested buckets, growth across several extension steps.",
+        "design_ref": "DESIGN.md §5 C01, §3",
+        "note": COMMON_NOTE + "Hand-written models tied by correspondence: the API control flow (Model/TreeDB.lean), tree operations, commit, page writers. The order in which rebalance visits nodes is read from the run (the theorems hold for every order). Handles, iterator adaptors and the panic on a deleted-bucket handle are specified in the driver's handle table, not in Lean theorems.",
     },
     "C05": {
         "category": "other",
